@@ -25,10 +25,10 @@ theorem ValRel.reflList : ∀ xs : List Val, Forall2 ValRel xs xs
 end
 
 /-! ## `add_guard` -/
-theorem addGuard_obl {c1 c2 : Val} (hc : ValRel c1 c2) : Obl GuardBakRel (addGuard c1) (addGuard c2) := by
+theorem addGuardCore_obl {c1 c2 : Val} (hc : ValRel c1 c2) : Obl GuardBakRel (addGuardCore c1) (addGuardCore c2) := by
   obl_intro
   obtain ⟨hpub, hpriv, hcons, hguard, hone, hbl, hres, hp⟩ := shape_eq_iff.mp hs
-  unfold addGuard at h1 h2
+  unfold addGuardCore at h1 h2
   cases hc with
   | lc h =>
     simp only at h1 h2
@@ -77,6 +77,13 @@ theorem addGuard_obl {c1 c2 : Val} (hc : ValRel c1 c2) : Obl GuardBakRel (addGua
   | _ => cases h1
 
 /-! ## register files -/
+
+theorem ValRel_unwrapBoolCond {c1 c2 : Val} (hc : ValRel c1 c2) : ValRel (unwrapBoolCond c1) (unwrapBoolCond c2) := by
+  cases hc <;> simp only [unwrapBoolCond] <;> first | exact ValRel.lc ‹_› | constructor <;> assumption | constructor
+
+theorem addGuard_obl {c1 c2 : Val} (hc : ValRel c1 c2) : Obl GuardBakRel (addGuard c1) (addGuard c2) :=
+  addGuardCore_obl (ValRel_unwrapBoolCond hc)
+
 theorem getReg_obl {P : Val → Val → Prop} {r1 r2 : List Val} {a : Nat}
     (h : ∀ v1 v2, r1[a]? = some v1 → r2[a]? = some v2 → P v1 v2) : Obl P (getReg r1 a) (getReg r2 a) := by
   unfold getReg
